@@ -201,11 +201,7 @@ static void pump(MPT_INTERFACE(input) *in, int peer)
 {
 	/* read what is there, dispatch everything, flush, collect */
 	for (int round = 0; round < 64; round++) {
-		struct pollfd pf;
 		int r, d, guard = 0, readable, pending = 0;
-		pf.fd = peer; pf.events = 0; pf.revents = 0;
-		pf.fd = -1;
-		(void) pf;
 		{
 			struct pollfd in_pf;
 			int fd = -1;
